@@ -109,7 +109,7 @@ SnapOK(s) ==    \* s = [c, k, now, W, kind, rows]: rows of <<lp, delayed, stop>>
      /\ s.W = NoW => P = {}
 C07Clause(I, cf, ev) ==
   IF \E j \in 1..Len(ev.snaps) : ~SnapOK(ev.snaps[j]) THEN "expansion-not-the-W-best"
-  ELSE IF Fresh(ev) /\ ~SelectionSound(ev.lat, cf.W, 0) THEN "postponed-more-probable-than-expanded"
+  ELSE IF Fresh(ev) /\ ~SelectionSoundG(ev.lat, cf.W, 0, cf.slack = 0) THEN "postponed-more-probable-than-expanded"
   ELSE IF ev.aux.unpruned.present /\ ~CanonLeq(RCanon(ev), ACanon(ev.aux.unpruned), NOf(ev)) THEN
        \* signature of the recorded finding F-pathdep-prune: the scoring is path dependent (non-emitting
        \* states or a second-order penalty) and the pruned run reports its path truthfully
